@@ -29,10 +29,12 @@ CLAIM = dict(
     "physical_box_clipped (a physical box with corners at the coordinates of arbitrary voxel positions selects what the VoxelArray of the floored positions selects, "
     "reversed and non-reversed axes, all dims), roi_clipping (selected range = boxRange; voxel j selected iff lo <= j < hi and j in the image; ROI entirely outside selects nothing), "
     "nest (any program of subregion / VoxelArray / CoordinateArray / time_slice / time_interval steps of ANY length keeps the image placed "
-    "in the root with composed offsets; induction over the program), nest_offsets (the composed offset is the accumulated sum of the normalised slice starts, explicitly), subCoords_unfold (definitional), time_slice / time_interval bookkeeping, "
-    "stack_slice_rel / stack_slice_dated / stack_slice_shared_reference / stack_slice_dates (stack then time_slice: data and dates exactly; relative time = the stored one for images "
-    "without dates, date_i - ref_0 for dated images with arbitrary stored times and reference dates, hence the original exactly when the images share one reference date - "
-    "this is how the property's stack sentence is read). DATA ON ARRAYS for EVERY payload layout - scalar, vector and tensor-valued (component multi-index of any rank; time axis addressed at position space_dim as in the code) - "
+    "in the root with composed offsets; induction over the program), nest_offsets (the composed offset is the accumulated sum of the normalised slice starts, explicitly), subCoords_unfold (DEFINITIONAL unfolding, proves nothing about behaviour), time_slice / time_interval bookkeeping, "
+    "stack: stack_slice_rel (images with relative times only: slicing the stacked series returns the originals exactly), stack_slice_shared_reference (dated images sharing one reference date: "
+    "the originals exactly), stack_slice_dated (dated images in general: data and dates exactly, relative time RE-REFERENCED to the first image's reference date). The property's stack sentence read "
+    "literally FAILS for dated images with default reference dates and for dated images with stored times - two KNOWN FINDINGS with exact signatures, Lean witnesses stack_rereferences_witness / "
+    "stack_discards_stored_times_witness; the oracle checks the literal sentence and files a failure as known only when the observed time is exactly date_k - ref_0 with reference ref_0. "
+    "in_range_steps_succeed (progress: in-range steps do not raise; non-emptiness characterised). DATA ON ARRAYS for EVERY payload layout - scalar, vector and tensor-valued (component multi-index of any rank; time axis addressed at position space_dim as in the code) - "
     "(DarsiaModel.ImageArr: pixel array = function from the raw "
     "numpy index to a value tag; numpy index arithmetic of subregion/time_slice/time_interval/np.stack): extract_data_eq (for every root - scalar/vector, single/series - "
     "and every extraction program: entry (t,v,c) of the result = root entry (root time index of slab t, v + composed offset, c)), extract_data_inv, append_data_eq, "
@@ -48,6 +50,8 @@ CLAIM = dict(
     technique="Lean 4 proof (invariant over extraction programs) + differential correspondence + oracle search",
 )
 EPOCH = datetime(2020, 1, 1)
+KNOWN_REREF = "C02:stack-then-time_slice:relative-time-re-referenced(dated,default-reference)"
+KNOWN_DISCARD = "C02:stack-then-time_slice:stored-times-discarded(both)"
 OUTSIDE: dict = {}
 """Counters of observed behaviour outside the property's quantifier (reported in the evidence, never a violation)."""
 EPS = Fraction(1, 2**52)
@@ -554,24 +558,31 @@ def stack_eval(d, rs, offs):
             fails.append(("C02:stack-then-time_slice:data", f"slice {k} of the stacked series is not image {k}"))
         if back.date != ims[k].date:
             fails.append(("C02:stack-then-time_slice:date", f"slice {k}: date {back.date} vs original {ims[k].date}"))
-        if tkind in ("dates", "both"):
-            # stack() (no offset) of dated images: relative to the first date; append(offset): the stored times, shifted
-            # READING of the property sentence: dates are returned exactly; relative times are relative to the reference date of the
-            # series = the reference date of the first image (with a shared reference date these ARE the originals' times)
-            want = (ims[k].date - ims[0].reference_date).total_seconds() if not with_offsets else ims[k].time + (shift[k - 1] if k else 0)
-        elif tkind == "rel":
-            want = ims[k].time + (shift[k - 1] if k else 0)
+        cls = {"dates": "dates", "rel": "relative-times-only", "none": "no-time", "both": "dates-and-times"}[tkind]
+        if with_offsets:
+            # append(offset): the stored relative times, those of the appended images shifted
+            want = None if tkind == "none" else ims[k].time + (shift[k - 1] if k else 0)
+            if back.time != want:
+                fails.append((f"C02:stack-then-time_slice:time:{cls}:offset",
+                              f"slice {k} of append(offset) of {n} images carrying {cls}: relative time {back.time}, required {want} (series time {res.time})"))
         else:
-            want = None
-        if back.time != want:
-            cls = {"dates": "dates", "rel": "relative-times-only", "none": "no-time", "both": "dates-and-times"}[tkind]
-            fails.append((f"C02:stack-then-time_slice:time:{cls}{':offset' if with_offsets else ''}",
-                          f"slice {k} of {'append(offset)' if with_offsets else 'stack'} of {n} images carrying {cls}: relative time {back.time}, required {want} (series time {res.time})"))
-        if rs[0].get("ref") is not None and not with_offsets and tkind == "dates":
-            # shared reference date: the slice IS the original, relative time and reference date included
-            if back.time != ims[k].time or back.reference_date != ims[k].reference_date:
-                fails.append(("C02:stack-then-time_slice:shared-reference:not-the-original",
-                              f"slice {k}: time {back.time} / reference {back.reference_date}, original {ims[k].time} / {ims[k].reference_date}"))
+            # THE SENTENCE AS WRITTEN: slicing the stacked series returns the originals with their dates AND their relative times
+            # (and hence their reference date, which the relative time refers to)
+            literal = back.time == ims[k].time and back.reference_date == ims[k].reference_date
+            if not literal:
+                rereferenced = tkind in ("dates", "both") and back.time == (ims[k].date - ims[0].reference_date).total_seconds() \
+                    and back.reference_date == ims[0].reference_date
+                if tkind == "dates" and rereferenced and rs[0].get("ref") is None:
+                    # exactly the known behaviour: time re-referenced to the first image's reference date (date_k - date_0), reference = date_0
+                    fails.append((KNOWN_REREF, f"slice {k} of stack of {n} dated images (default reference dates): relative time {back.time} / reference {back.reference_date}, "
+                                               f"the original has {ims[k].time} / {ims[k].reference_date}"))
+                elif tkind == "both" and rereferenced:
+                    fails.append((KNOWN_DISCARD, f"slice {k} of stack of {n} dated images with stored relative times: time {back.time} (= date - reference of the first image), "
+                                                 f"the original's stored time {ims[k].time} is discarded"))
+                else:
+                    fails.append((f"C02:stack-then-time_slice:time:{cls}",
+                                  f"slice {k} of stack of {n} images carrying {cls}: relative time {back.time} / reference {back.reference_date}, original {ims[k].time} / {ims[k].reference_date} "
+                                  f"(series time {res.time})"))
         if not np.array_equal(np.asarray(back.origin), np.asarray(ims[k].origin)) or list(back.dimensions) != list(ims[k].dimensions):
             fails.append(("C02:stack-then-time_slice:geometry", f"slice {k}: origin/dimensions changed"))
     return line, res, rs, offs, fails
@@ -709,7 +720,10 @@ def parse_steps(d, toks):
 
 
 def physical_box_check(d, rng, im, dyadic, box=None):
-    """A physical box selects the same block as the voxel box of its converted corners."""
+    """A physical box selects the same block as the voxel box of its converted corners.
+    NOTE: the FIRST clause compares subregion(CoordinateArray) with subregion(VoxelArray(cs.voxel(points))) - in the implementation these are the
+    same code path (the coordinate branch calls cs.voxel and then the same clip expression), so that clause is a self-consistency check; the
+    independent clause is the LAST one: the selected block must be base[floor(min) clipped : floor(max) clipped] computed here from the voxel positions."""
     dim = im.space_dim
     N = list(im.img.shape[:dim])
     cs = im.coordinatesystem
@@ -780,6 +794,21 @@ def run(ctx):
     from ..lib.core import VERIF
 
     rng = ctx.rng
+    # step 0: corpus of minimised past failures, re-executed on the implementation
+    cdir = VERIF / "corpus" / "C02"
+    ncorp = 0
+    if cdir.is_dir():
+        for f in sorted(cdir.glob("*.json")):
+            data = json.loads(f.read_text())
+            case = data.get("replay", data)
+            r_ = call(reexecute, d, case)
+            ncorp += 1
+            if isinstance(r_, Raised):
+                ctx.mark("CORR-BROKEN", {"corpus": f.name, "error": repr(r_.exc)})
+                continue
+            for sig, what in r_:
+                ctx.fail(sig, f"corpus {f.name}: {what}", {**case, "signature": sig})
+    ctx.cov["corpus_cases"] = ncorp
     t = c20.tabulate(d)
     ctx.write_gen("IndexingTables", c20.emit(t))
     ctx.prove("C02")
@@ -941,27 +970,26 @@ def run(ctx):
                         "payload encodes (root, time index, voxel) of every entry; block identity is decided on it"]
 
 
-def replay(data):
-    import darsia as d
+def reexecute(d, case, verbose=False):
+    """Re-execute a stored case on the implementation. Returns the list of (signature, what) that fail now."""
     import random
 
-    case = data.get("replay", data)
-    want = case.get("signature", data.get("signature"))
+    say = print if verbose else (lambda *a_, **k_: None)
     if case.get("kind") == "assembled":
         line, dsc, fails, _, _ = assembled_eval(d, case["roots"][0], case["roots"][1], case["offset"], None, case["steps"])
-        print(f"C02 replay {line}\n  result: {dsc}")
+        say(f"C02 replay {line}\n  result: {dsc}")
     elif case.get("kind") == "alias":
         fails = alias_eval(d, case["roots"][0], case["mode"])
-        print(f"C02 replay alias mode={case['mode']} root={case['roots'][0]}")
+        say(f"C02 replay alias mode={case['mode']} root={case['roots'][0]}")
     elif case.get("kind") == "stack":
         out = stack_eval(d, case["roots"], case["offsets"])
         fails = [("C02:stack:roots-unbuildable", "the images cannot be built")] if out is None else out[4]
-        print(f"C02 replay stack of {len(case['roots'])} images ({case['roots'][0]['tkind']}), offsets={case['offsets']}")
+        say(f"C02 replay stack of {len(case['roots'])} images ({case['roots'][0]['tkind']}), offsets={case['offsets']}")
     else:
         r = case["root"]
         root = build_root(d, r)
         im = root
-        print(f"C02 replay program: {case['program']}")
+        say(f"C02 replay program: {case['program']}")
         fails = []
         for tok, fn in zip(case["steps"], parse_steps(d, case["steps"])):
             parent = im
@@ -982,7 +1010,16 @@ def replay(data):
             if case.get("outside_box"):
                 for kind in ("voxel", "coordinate"):
                     fails = fails + outside_box_check(d, im, dyadic, case["outside_box"], kind)
-            print("  result:", describe(im, {r["rid"]: r}))
+            say("  result:", describe(im, {r["rid"]: r}))
+    return fails
+
+
+def replay(data):
+    import darsia as d
+
+    case = data.get("replay", data)
+    want = case.get("signature", data.get("signature"))
+    fails = reexecute(d, case, verbose=True)
     hit = [f for f in fails if f[0] == want] or fails
     for sig, what in hit[:5]:
         print(f"  FAILS {sig}: {what}")
